@@ -727,6 +727,9 @@ func (v *Protocol) onPacketWriten(m *Message, pkt Packet) (err error) {
 		tid, name = pkt.TransactionID, pkt.CommandName
 	case *CreateStreamPacket:
 		tid, name = pkt.TransactionID, pkt.CommandName
+	case *SetChunkSize:
+		// The peer will use the new chunk size to read the following messages.
+		v.output.opt.chunkSize = pkt.ChunkSize
 	}
 
 	if tid > 0 && len(name) > 0 {
